@@ -1,4 +1,4 @@
-import Pyxv.Model.Backends
+import Pyxv.Model.BackendsGuards
 /-! Lemmas about trailing trims and the empty-run loops of `get_excel_rows` / `get_excel_column_headers`. -/
 namespace Pyxv.Backends
 open Pyxv
@@ -12,9 +12,6 @@ theorem list_reverse_induction {α} {motive : List α → Prop} (nil : motive []
     | nil => exact nil
     | cons x r ih => simpa using append_singleton _ x ih
   simpa using this l.reverse
-
-/-- specification: drop the trailing elements satisfying `p` (and nothing else) -/
-def stripTrailing {α} (p : α → Bool) (l : List α) : List α := (l.reverse.dropWhile p).reverse
 
 theorem stripTrailing_nil {α} (p : α → Bool) : stripTrailing p [] = [] := rfl
 
@@ -105,12 +102,6 @@ theorem trimTrailing_idem {α} (l : List α) (n : Nat) : trimTrailing (trimTrail
   trimTrailing_zero _
 
 /-! ### runs of empty rows -/
-
-/-- every run of empty rows that is *followed by a non-empty row* has length ≤ `lim`
-(`k` = empties seen immediately before). Decidable form. -/
-def runsInt {α} (lim : Nat) : Nat → List (List α) → Bool
-  | _, [] => true
-  | k, r :: rest => if r.isEmpty then runsInt lim (k + 1) rest else decide (k ≤ lim) && runsInt lim 0 rest
 
 /-- declarative form: any block of empty rows followed by a non-empty row has at most `lim` rows -/
 def InteriorRunsLE {α} (lim : Nat) (ds : List (List α)) : Prop :=
@@ -270,5 +261,130 @@ theorem headersLoop_spec (lim : Nat) : ∀ (rest : List (Option Str)) (adj : Nat
           simp only [List.replicate_zero, List.append_nil] at h0
           rw [h0, List.map_cons, cleanOpt_some_of_nonempty s he']
           simp
+
+
+/-! ### header cells: interior runs only (a trailing run may be arbitrarily long) -/
+
+/-- every run of empty header cells that is *followed by a non-empty one* has length ≤ `lim` -/
+def runsIntH (lim : Nat) : Nat → List (Option Str) → Bool
+  | _, [] => true
+  | k, h :: rest => if isEmptyVal h then runsIntH lim (k + 1) rest else decide (k ≤ lim) && runsIntH lim 0 rest
+
+theorem runsIntH_all_empty (lim : Nat) : ∀ (rest : List (Option Str)) (k : Nat), lim < k →
+    runsIntH lim k rest = true → ∀ h ∈ rest, isEmptyVal h = true
+  | [], _, _, _ => by simp
+  | r :: rest, k, hk, h => by
+    unfold runsIntH at h
+    split at h
+    · rename_i he
+      intro x hx
+      simp at hx
+      rcases hx with hx | hx
+      · subst hx; exact he
+      · exact runsIntH_all_empty lim rest (k + 1) (by omega) h x hx
+    · simp at h; omega
+
+theorem replicate_append_cons {α} (n : Nat) (a : α) (l : List α) :
+    List.replicate n a ++ a :: l = a :: (List.replicate n a ++ l) := by
+  induction n with
+  | zero => rfl
+  | succ n ih => simp [List.replicate_succ, ih]
+
+theorem trimTrailing_break {α} (pre : List α) (n : Nat) (x : α) :
+    trimTrailing (pre ++ List.replicate n x ++ [x]) n = pre ++ [x] := by
+  have : pre ++ List.replicate n x ++ [x] = (pre ++ [x]) ++ List.replicate n x := by
+    rw [List.append_assoc, replicate_append_cons, List.append_nil]; simp
+  rw [this, trimTrailing_append_replicate]
+
+/-- The loop of `get_excel_column_headers` when only *interior* runs are bounded: either exactly the
+cleaned row without its trailing empties, or — when the loop stopped inside a trailing run longer
+than the limit — that list plus one `None` (appended before the limit test), everything beyond
+being empty cells. -/
+theorem headersLoop_interior (lim : Nat) : ∀ (rest : List (Option Str)) (adj : Nat) (pre : List (Option Str))
+    (res : List (Option Str) × Nat),
+    adj ≤ lim → stripTrailing Option.isNone pre = pre → runsIntH lim adj rest = true →
+    headersLoop lim adj (pre ++ List.replicate adj none) rest = .ok res →
+    trimTrailing res.1 res.2 = stripTrailing Option.isNone (pre ++ List.replicate adj none ++ rest.map cleanOpt) ∨
+    (trimTrailing res.1 res.2 = stripTrailing Option.isNone (pre ++ List.replicate adj none ++ rest.map cleanOpt) ++ [none] ∧
+      ∃ t, pre ++ List.replicate adj none ++ rest.map cleanOpt =
+          stripTrailing Option.isNone (pre ++ List.replicate adj none ++ rest.map cleanOpt) ++ none :: t ∧
+        ∀ x ∈ t, x = none)
+  | [], adj, pre, res, _, hp, _, h => by
+    left
+    simp only [headersLoop] at h
+    injection h with h; subst h
+    simp only [List.map_nil, List.append_nil]
+    rw [trimTrailing_append_replicate, stripTrailing_append_all _ _ _ (by
+      intro x hx; rw [List.eq_of_mem_replicate hx]; rfl), hp]
+  | x :: rest, adj, pre, res, ha, hp, hr, h => by
+    unfold runsIntH at hr
+    unfold headersLoop at h
+    split at hr
+    · rename_i he
+      simp only [he, if_true] at h
+      have hx : cleanOpt x = none := cleanOpt_none_of_empty x he
+      by_cases hlim : lim = adj
+      · -- the break: the `None` was appended, everything that follows is empty
+        right
+        simp only [hlim, if_true] at h
+        injection h with h; subst h
+        have hall := runsIntH_all_empty lim rest (adj + 1) (by omega) hr
+        have hnone : ∀ y ∈ rest.map cleanOpt, y = none := by
+          intro y hy
+          rw [List.mem_map] at hy
+          obtain ⟨z, hz, rfl⟩ := hy
+          exact cleanOpt_none_of_empty z (hall z hz)
+        have hS : stripTrailing Option.isNone (pre ++ List.replicate adj none ++ (x :: rest).map cleanOpt) = pre := by
+          rw [List.append_assoc, stripTrailing_append_all _ pre _ (by
+            intro y hy
+            simp only [List.map_cons, hx, List.mem_append, List.mem_cons] at hy
+            rcases hy with hy | hy | hy
+            · rw [List.eq_of_mem_replicate hy]; rfl
+            · rw [hy]; rfl
+            · rw [hnone y hy]; rfl), hp]
+        rw [hS]
+        refine ⟨trimTrailing_break pre adj none, List.replicate adj none ++ rest.map cleanOpt, ?_, ?_⟩
+        · simp only [List.map_cons, hx, List.append_assoc, replicate_append_cons]
+        · intro y hy
+          simp only [List.mem_append] at hy
+          rcases hy with hy | hy
+          · exact List.eq_of_mem_replicate hy
+          · exact hnone y hy
+      · simp only [hlim, if_false] at h
+        have e1 : pre ++ List.replicate adj (none : Option Str) ++ [none] = pre ++ List.replicate (adj + 1) none := by
+          rw [List.replicate_succ', List.append_assoc]
+        rw [e1] at h
+        have ih := headersLoop_interior lim rest (adj + 1) pre res (by omega) hp hr h
+        have e2 : pre ++ List.replicate (adj + 1) none ++ rest.map cleanOpt =
+            pre ++ List.replicate adj none ++ (x :: rest).map cleanOpt := by
+          rw [← e1, List.map_cons, hx]; simp
+        rw [e2] at ih
+        exact ih
+    · rename_i he
+      have he' : isEmptyVal x = false := by simpa using he
+      simp only [he', Bool.false_eq_true, if_false] at h
+      simp only [Bool.and_eq_true, decide_eq_true_eq] at hr
+      cases x with
+      | none => simp [isEmptyVal] at he'
+      | some s =>
+        simp only at h
+        split at h
+        · cases h
+        · have ih := headersLoop_interior lim rest 0 (pre ++ List.replicate adj none ++ [some (cleanHeader s)]) res
+            (by omega) (stripTrailing_snoc_neg _ _ _ rfl) hr.2 (by simpa using h)
+          simp only [List.replicate_zero, List.append_nil] at ih
+          have e2 : pre ++ List.replicate adj none ++ [some (cleanHeader s)] ++ rest.map cleanOpt =
+              pre ++ List.replicate adj none ++ (some s :: rest).map cleanOpt := by
+            rw [List.map_cons, cleanOpt_some_of_nonempty s he']; simp
+          rw [e2] at ih
+          exact ih
+
+theorem filterMap_id_all_none (t : List (Option Str)) (h : ∀ x ∈ t, x = none) : t.filterMap id = [] := by
+  induction t with
+  | nil => rfl
+  | cons x t ih =>
+    have := h x (by simp)
+    subst this
+    simpa using ih (fun y hy => h y (by simp [hy]))
 
 end Pyxv.Backends
